@@ -13,6 +13,9 @@ tied to the real-valued Coq model by a Qed-closed R-lemma  |model(args) - observ
         (product of Householder reflections of integer vectors); the model is evaluated in the
         eigen-coordinates  c = H^T (x - loc)  computed exactly with Fractions
   mvnm  the same observation for dim <= 3, stated at matrix level: Coq multiplies out (x-loc) (H diag(lam) H^T) (x-loc)^T
+  mvnh  histories of from_penalty / from_penalty_smooth calls on ONE numpy penalty edited in place (ridge added: rank
+        changes; rescaled: rank kept; overwritten) and on many short-lived penalties of one shape; every step is tied to the
+        model of the CURRENT matrix
   mvns  MultivariateNormalDegenerate.sample: the linear map z -> sample - loc is recovered from the
         captured standard normal draws; the diagonal of  H^T A A^T H  is tied to sqrt_pcov_diag^2
 
@@ -622,8 +625,22 @@ def gen_mvn_group(rnd, spec):
             "tiny": [F(1, 2 ** 20), F(1, 2 ** 30), F(1, 10 ** 6)]}
     assert varmode == "normal" or spec["ctor"] in ("pen", "smooth")
     base_var = rnd.choice(VARS[varmode])
+    mixed = spec.get("scalemode") == "mixed"
+    if mixed:
+        assert spec["batch"] == "prec" and spec["rkmode"] == "none" and spec["lpmode"] == "none"
+        B = max(B, 2)
+        big_top = F(2 ** rnd.choice([14, 17, 20, 26]))
+        big_first = rnd.random() < 0.5
     for e in range(B):
         lam = base_lam if (e == 0 or spec["batch"] != "prec") else gen_lam(rnd, d, rank, spec["repeated"])
+        if mixed:
+            # members of one batch whose scales differ by 1e3 .. 1e8: one full-rank member with eigenvalues around
+            # 2^14 .. 2^26, the others rank-deficient with eigenvalues in [2^-9, 2^-4] (all far above tol = 1e-6);
+            # every member is judged against its OWN single-matrix model value
+            if (e == 0) == big_first:
+                lam = sorted([big_top] + [big_top / 2 ** rnd.randint(0, 10) for _ in range(d - 1)])
+            else:
+                lam = [F(0)] * (d - rank) + sorted(F(1, 2 ** rnd.randint(4, 9)) for _ in range(rank))
         loc = base_loc if (e == 0 or spec["batch"] != "loc") else [F(rnd.randint(-32, 32), 8) for _ in range(d)]
         var = base_var if (e == 0 or spec["batch"] != "var") else rnd.choice(
             [F(1, 4), F(2), F(3), F(1, 2), F(6)] if varmode == "normal" else [v for v in VARS[varmode] if v != base_var])
@@ -634,7 +651,8 @@ def gen_mvn_group(rnd, spec):
             el["smooth"] = fs(1 / var)
         els.append(el)
     g = {"dim": d, "refl": refl, "ctor": spec["ctor"], "batch": spec["batch"], "elems": els,
-         "tol": None if tol is None else fs(tol), "rk": None, "lp": None, "spec": True, "varmode": varmode}
+         "tol": None if tol is None else fs(tol), "rk": None, "lp": None, "spec": True, "varmode": varmode,
+         "scalemode": spec.get("scalemode")}
     t = tol if tol is not None else TOL_DEFAULT
     lam0 = [pf(x) for x in els[0]["lam"]]
     true_rank = sum(1 for x in lam0 if x > t)
@@ -786,6 +804,16 @@ def gen_mvn(ctx, rnd, cases):
             if sp["rkmode"] == "less":
                 sp["rkmode"] = "none"
             ext_single.append(sp)
+    # batches whose members differ in scale by 1e3 .. 1e8 (precision batches and penalty batches, no rank / log_pdet)
+    mix = [dict(zip(K, (3, "int", "plain", "none", "none", "prec", 2, "default", "loc", False)), scalemode="mixed"),
+           dict(zip(K, (4, "dyadic", "pen", "none", "none", "prec", 2, "default", "loc", False)), scalemode="mixed"),
+           dict(zip(K, (3, "int", "smooth", "none", "none", "prec", 1, "default", "zero", False)), scalemode="mixed")]
+    for _ in range(0 if ctx.quick else 20):
+        mix.append(dict(zip(K, (rnd.randint(2, 5), rnd.choice(["int", "dyadic", "identity"]), rnd.choice(["plain", "pen", "smooth"]),
+                                "none", "none", "prec", 0, "default", rnd.choice(["zero", "loc"]), False)), scalemode="mixed"))
+        mix[-1]["rank"] = rnd.randint(1, mix[-1]["dim"] - 1)
+    for sp in mix:
+        groups.append((gen_mvn_group(rnd, sp), "none", "none", None))
     for sp in ext_specs:
         fam = family_groups(rnd, dict(sp, npts=2), with_plain=False)
         for k, (g, rkm, lpm) in enumerate(fam):
@@ -822,7 +850,8 @@ def gen_mvn(ctx, rnd, cases):
                                 + f".rk={spec['rkmode']}.lp={spec['lpmode']}.batch={g['batch']}"
                                 + (".tol=custom" if g["tol"] else "") + (".nullshift" if g["points"][p]["shift_of"] is not None else "")
                                 + (".family" if ref is not None else "")
-                                + ("" if g.get("varmode", "normal") == "normal" else f".var={g['varmode']}"))
+                                + ("" if g.get("varmode", "normal") == "normal" else f".var={g['varmode']}")
+                                + (".scales=mixed" if g.get("scalemode") else ""))
                 cases.append(c)
                 if g["dim"] <= 3 and p == 0 and g["refl"]:
                     cases.append({"kind": "mvnm", "group": g, "e": e, "p": p,
@@ -881,6 +910,8 @@ def describe_mvn(c):
     g, e, p = c["group"], c["e"], c["p"]
     el = g["elems"][e]
     extra = {k: el[k] for k in ("var", "smooth") if k in el}
+    if g["batch"] == "prec":
+        extra["eigenvalues_of_all_batch_members"] = [m["lam"] for m in g["elems"]]
     return (f"constructor={g['ctor']} dim={g['dim']} eigenvalues={el['lam']} {extra} rank_arg={g['rk']} "
             f"log_pdet_arg={'given' if g['lp'] else None} tol={g['tol']} batch={g['batch']} element={e} x={g['points'][p]['x']} loc={el['loc']}")
 
@@ -1071,6 +1102,123 @@ def stmt_mvns(c):
 
 
 # ----------------------------------------------------------------------------------------------
+# degenerate multivariate normal: HISTORIES of constructor calls (state that outlives a call must not matter)
+# ----------------------------------------------------------------------------------------------
+def mvnh_run(h):
+    """replay the whole history in this process: one numpy penalty array modified IN PLACE between constructor calls
+    (mode 'inplace'), or a fresh numpy array per step that is dropped right after use (mode 'loop')"""
+    import gc
+    import jax.numpy as jnp
+    import numpy as np
+    from liesel.distributions.mvn_degen import MultivariateNormalDegenerate as M
+    d = h["dim"]
+    H = make_H(h["refl"], d)
+    loc = jnp.asarray([float(pf(t)) for t in h["loc"]], dtype=jnp.float64)
+    eye = np.eye(d)
+    P = None
+    out = []
+    for st in h["steps"]:
+        op = st["op"]
+        if op[0] == "set" or P is None or h["mode"] == "loop":
+            K = np.asarray(fmat(K_from(H, [pf(t) for t in st["lam"]])), dtype=np.float64)
+            if P is None or h["mode"] == "loop":
+                P = None
+                gc.collect()
+                P = np.array(K)                 # a new array object (may reuse the address of a dropped one)
+            else:
+                P[...] = K                      # same object, new contents
+        elif op[0] == "add_ridge":
+            P += float(pf(op[1])) * eye
+        elif op[0] == "scale":
+            P *= float(pf(op[1]))
+        x = jnp.asarray([float(pf(t)) for t in st["x"]], dtype=jnp.float64)
+        dist = None
+        try:
+            if st["ctor"] == "pen":
+                dist = M.from_penalty(loc=loc, var=jnp.float64(float(pf(st["var"]))), pen=P)
+            else:
+                dist = M.from_penalty_smooth(loc=loc, smooth=jnp.float64(float(pf(st["smooth"]))), pen=P)
+            out.append(float(dist.log_prob(x)))
+        except Exception as ex:
+            out.append(raised(ex))
+        del dist
+    return out
+
+
+def mvnh_group(h, k):
+    """step k of a history as a one-element group (same statement / oracle as an isolated call on the CURRENT matrix)"""
+    st = h["steps"][k]
+    el = {"lam": st["lam"], "loc": h["loc"]}
+    el.update({key: st[key] for key in ("var", "smooth") if key in st})
+    return {"dim": h["dim"], "refl": h["refl"], "ctor": st["ctor"], "batch": "none", "elems": [el], "tol": None,
+            "rk": None, "lp": None, "spec": True, "points": [{"x": st["x"], "shift_of": None}], "obs": [[h["obs"][k]]]}
+
+
+def gen_history(rnd, mode, d, nsteps):
+    refl = gen_refl(rnd, d, rnd.choice(["int", "dyadic"]))
+    H = make_H(refl, d)
+    loc = [F(rnd.randint(-16, 16), 8) for _ in range(d)]
+    steps = []
+    lam = None
+    for k in range(nsteps):
+        if mode == "loop" or k == 0:
+            rank = rnd.randint(max(1, d - 2), d) if mode == "loop" else d - rnd.randint(1, 2)
+            lam = gen_lam(rnd, d, rank, lo=F(1, 64))
+            op = ["set"]
+        else:
+            kind = ["add_ridge", "scale", "set"][(k - 1) % 3]
+            if kind == "add_ridge":                          # rank-changing: the null space disappears
+                t = rnd.choice([F(1, 2), F(1, 4), F(1)])
+                lam = [x + t for x in lam]
+                op = ["add_ridge", fs(t)]
+            elif kind == "scale":                            # rank-preserving: only the log-pseudo-determinant moves
+                f = rnd.choice([F(4), F(1, 8), F(16)])
+                lam = [x * f for x in lam]
+                op = ["scale", fs(f)]
+            else:                                            # new contents in the same array, other rank
+                lam = gen_lam(rnd, d, d - rnd.randint(1, 2), lo=F(1, 64))
+                op = ["set"]
+        c = [F(rnd.randint(-32, 32), 8) for _ in range(d)]
+        x = [a + b for a, b in zip(matvec(H, c), loc)]
+        st = {"op": op, "lam": [fs(t) for t in lam], "ctor": rnd.choice(["pen", "smooth"]), "x": [fs(t) for t in x]}
+        var = rnd.choice([F(1), F(2), F(1, 2), F(4)])
+        st["var" if st["ctor"] == "pen" else "smooth"] = fs(var if st["ctor"] == "pen" else 1 / var)
+        steps.append(st)
+    return {"mode": mode, "dim": d, "refl": refl, "loc": [fs(t) for t in loc], "steps": steps}
+
+
+def gen_mvnh(ctx, rnd, cases):
+    plan = [("inplace", 3, 7), ("inplace", 4, 4), ("loop", 3, 8)]
+    for _ in range(0 if ctx.quick else 12):
+        plan.append((rnd.choice(["inplace", "loop"]), rnd.randint(2, 5), rnd.randint(4, 10)))
+    for mode, d, n in plan:
+        h = gen_history(rnd, mode, d, n)
+        try:
+            h["obs"] = [enc(v) for v in mvnh_run(h)]
+        except Exception as ex:
+            h["obs"] = [raised(ex)] * len(h["steps"])
+        for k, st in enumerate(h["steps"]):
+            cases.append({"kind": "mvnh", "hist": h, "k": k,
+                          "stratum": f"mvnh.{mode}.{st['op'][0] if mode == 'inplace' else 'fresh_array'}.{st['ctor']}"})
+
+
+def oracle_mvnh(c):
+    h, k = c["hist"], c["k"]
+    r = oracle_mvn({"group": mvnh_group(h, k), "e": 0, "p": 0})
+    if r:
+        ops = [st["op"] for st in h["steps"][: k + 1]]
+        return (f"step {k} of a history of constructor calls ({h['mode']}: "
+                + ("one numpy penalty array edited in place, operations " + str(ops) if h["mode"] == "inplace"
+                   else "a fresh numpy penalty per call, dropped after use")
+                + f"): {r}")
+    return None
+
+
+def stmt_mvnh(c):
+    return stmt_mvn({"group": mvnh_group(c["hist"], c["k"]), "e": 0, "p": 0})
+
+
+# ----------------------------------------------------------------------------------------------
 # numerical side checks (tested, not proved)
 # ----------------------------------------------------------------------------------------------
 def uniform_marginals(ctx):
@@ -1099,7 +1247,7 @@ def uniform_marginals(ctx):
 # ----------------------------------------------------------------------------------------------
 # run_standard interface
 # ----------------------------------------------------------------------------------------------
-def build_cases(ctx, seed, parts=("sig", "cop", "mvn", "mvns")):
+def build_cases(ctx, seed, parts=("sig", "cop", "mvn", "mvns", "mvnh")):
     import jax
     jax.config.update("jax_enable_x64", True)
     rnd = random.Random(seed)
@@ -1112,6 +1260,8 @@ def build_cases(ctx, seed, parts=("sig", "cop", "mvn", "mvns")):
         gen_mvn(ctx, rnd, cases)
     if "mvns" in parts:
         gen_mvns(ctx, rnd, cases)
+    if "mvnh" in parts:
+        gen_mvnh(ctx, rnd, cases)
     return cases
 
 
@@ -1126,6 +1276,8 @@ def case_key(c):
     if k in ("mvn", "mvnm"):
         g = c["group"]
         return (k, id(g), c["e"], c["p"])
+    if k == "mvnh":
+        return (k, id(c["hist"]), c["k"])
     return (k, id(c["group"]), c["e"], c["i"])
 
 
@@ -1172,8 +1324,10 @@ def generate(ctx):
     return cases
 
 
-STMT = {"sig": stmt_sig, "cop": stmt_cop, "ctor": stmt_ctor, "mvn": stmt_mvn, "mvnm": stmt_mvnm, "mvns": stmt_mvns}
+STMT = {"sig": stmt_sig, "cop": stmt_cop, "ctor": stmt_ctor, "mvn": stmt_mvn, "mvnm": stmt_mvnm, "mvns": stmt_mvns,
+        "mvnh": stmt_mvnh}
 ORACLE = {"sig": oracle_sig, "cop": oracle_cop, "ctor": oracle_ctor, "mvn": oracle_mvn, "mvns": oracle_mvns,
+          "mvnh": oracle_mvnh,
           "mvnm": lambda c: None}     # same observation as the sibling "mvn" case, judged there
 
 
@@ -1240,9 +1394,9 @@ def search(ctx, disagreeing):
         def hist(self, *a, **k):
             pass
     q = _Quiet()
-    kinds = {c["kind"] for c in disagreeing} or {"sig", "cop", "ctor", "mvn", "mvns"}
-    parts = tuple(p for p in ("sig", "cop", "mvn", "mvns") if p in kinds or (p == "cop" and "ctor" in kinds))
-    for c in build_cases(q, ctx.seed + 1, parts or ("sig", "cop", "mvn", "mvns")):
+    kinds = {c["kind"] for c in disagreeing} or {"sig", "cop", "ctor", "mvn", "mvns", "mvnh"}
+    parts = tuple(p for p in ("sig", "cop", "mvn", "mvns", "mvnh") if p in kinds or (p == "cop" and "ctor" in kinds))
+    for c in build_cases(q, ctx.seed + 1, parts or ("sig", "cop", "mvn", "mvns", "mvnh")):
         r = oracle(c)
         if r:
             out.append(dict(c, why=r))
@@ -1283,6 +1437,8 @@ def rerun(c):
         g = c["group"]
         out, _, _ = mvn_run(g)
         g["obs"] = [[enc(v) for v in row] for row in out]
+    elif k == "mvnh":
+        c["hist"]["obs"] = [enc(v) for v in mvnh_run(c["hist"])]
     else:
         g = c["group"]
         g["sobs"] = mvns_run(g)
@@ -1301,7 +1457,10 @@ def replay(rp) -> int:
         print("REPLAY FAILS: the implementation raised", type(ex).__name__, ex)
         return 1
     r = oracle(c)
-    print({k: v for k, v in c.items() if k not in ("group",)})
+    print({k: v for k, v in c.items() if k not in ("group", "hist")})
+    if c["kind"] == "mvnh":
+        print("history:", c["hist"]["mode"], [(st["op"], st["ctor"], st["lam"]) for st in c["hist"]["steps"][: c["k"] + 1]],
+              "observed", c["hist"]["obs"][c["k"]])
     if c["kind"] in ("mvn",):
         print(describe_mvn(c), "observed", c["group"]["obs"][c["p"]][c["e"]])
     if c["kind"] == "mvns":
